@@ -43,7 +43,8 @@ def dumpUrl (idna : Idna) (u : Url) : String :=
   s!"host={hexs u.getHost} hostname={hexs u.getHostname} port={hexs u.getPort} pathname={hexs u.pathSerialized} " ++
   s!"search={hexs u.getSearch} hash={hexs u.getHash} origin={hexs (u.origin idna)} " ++
   s!"hosttype={hostKind u} opaque={if u.isOpaque then 1 else 0} hashost={if u.host.isSome then 1 else 0} " ++
-  s!"hasq={if u.query.isSome then 1 else 0} hasf={if u.fragment.isSome then 1 else 0}"
+  s!"hasq={if u.query.isSome then 1 else 0} hasf={if u.fragment.isSome then 1 else 0} " ++
+  s!"validdomain={if u.host.isSome && verifyDnsLength u.getHostname then 1 else 0}"
 
 def withMarkerCheck (idna : Idna) (u : Url) : String :=
   match findMarker (u.href ++ [0x20] ++ u.origin idna) with
